@@ -137,7 +137,7 @@ def _worker_batch(args):
 def run_many(prop, seed, tier, runs, base, workers, keep_specs=(), deadline=None):
     """Execute the given run indices on `workers` processes; returns compact results sorted by run."""
     runs = list(runs)
-    chunk = max(1, min(40, len(runs) // (workers * 4) or 1))
+    chunk = max(1, min(12, len(runs) // (workers * 4) or 1))
     batches = [runs[i:i + chunk] for i in range(0, len(runs), chunk)]
     results = []
     skipped = 0
